@@ -121,6 +121,14 @@ func PathOf(v ssa.Value) Path {
 					return PathOf(sv)
 				}
 			}
+			// load of a captured variable or package-level variable: the
+			// variable itself is the root (every load denotes the same cell)
+			if fv, ok := x.X.(*ssa.FreeVar); ok {
+				return Path{Root: fv}
+			}
+			if g, ok := x.X.(*ssa.Global); ok {
+				return Path{Root: g}
+			}
 		}
 	case *ssa.Field:
 		base := PathOf(x.X)
